@@ -430,6 +430,9 @@ class Tr:
         if (ty, want) in self.spec.get("coercions", {}):
             # (third extension, metrics) a declared subtype / union reading: spec coercions {(from, to): coq function}
             return f"({self.spec['coercions'][(ty, want)]} {text})"
+        if (ty, want) in self.spec.get("injections", {}):
+            # (tag filt) a value of a declared type used where a declared sum of types is wanted
+            return self.spec["injections"][(ty, want)].format(text)
         raise Unsupported(f"cannot use {ty} as {want} {what}")
 
     def unify(self, t1, t2):
@@ -449,6 +452,11 @@ class Tr:
     def expr0(self, e, env, want=None):
         if want == "FUN":
             return self.fun_arg(e, env), "FUN"          # (third extension, metrics) a function passed as a value
+        if self.spec.get("filt_ext"):                    # (tag filt: handlers in pysrc_filt.py)
+            from . import pysrc_filt
+            r = pysrc_filt.filt_expr(self, e, env, want)
+            if r is not None:
+                return r
         if self.text_exprs and ast.unparse(e) in self.text_exprs:
             return self.text_exprs[ast.unparse(e)]
         if self.sums:
@@ -1493,6 +1501,11 @@ class Tr:
         r3 = self.met_stmt(s, rest, env, fin, ind)
         if r3 is not None:
             return r3
+        if self.spec.get("filt_ext"):                    # (tag filt: handlers in pysrc_filt.py)
+            from . import pysrc_filt
+            r = pysrc_filt.filt_stmt(self, s, rest, env, fin, ind)
+            if r is not None:
+                return r
         if isinstance(s, ast.Expr) and isinstance(s.value, ast.Constant) and isinstance(s.value.value, str):
             return self.block(rest, env, fin, ind)           # docstring
         if isinstance(s, ast.Pass):
@@ -3060,6 +3073,10 @@ def find_function(tree, cls, func):
             raise Unsupported(f"class {cls} not found (or defined twice)")
         scope = cd.body
     found = [n for n in scope if isinstance(n, ast.FunctionDef) and n.name == func]
+    if len(found) > 1 and not found[-1].decorator_list and \
+            all([ast.unparse(d) for d in n.decorator_list] == ["overload"] for n in found[:-1]):
+        # (tag filt) typing.overload stubs followed by the one real definition, which is the last binding
+        found = found[-1:]
     if len(found) == 1:
         return found[0]
     raise Unsupported(f"function {cls + '.' if cls else ''}{func} " + ("not found" if not found else "defined twice"))
@@ -3250,8 +3267,11 @@ def translate_all(repo: Path, specs, header=HEADER):
                 continue
             fdef = (find_function_ov if spec.get("overloads") else find_function)(
                 trees[path], spec.get("cls"), spec["func"])
-            if spec.get("nested"):
+            if spec.get("nested") and not spec.get("filt_ext"):
                 fdef = find_nested(fdef, spec["nested"])         # (third extension, metrics) a local closure
+            if spec.get("filt_ext"):                     # (tag filt: nested functions, *args as a list)
+                from . import pysrc_filt
+                fdef = pysrc_filt.filt_prepare(fdef, spec)
             for line in spec.get("file_has", []):
                 # a module-level statement the spec's reading of a name depends on (e.g. an import)
                 if not any(ast.unparse(n) == line for n in trees[path].body):
